@@ -69,6 +69,20 @@ fn shapes() -> Vec<(String, Value)> {
         {"endpointName": "list", "httpMethod": "GET", "httpPath": "/list/{prefix:.*}", "args": [{"argName": "prefix", "type": prim("STRING"), "paramType": {"type": "path", "path": {}}, "markers": [], "tags": []}], "returns": list(prim("STRING")), "markers": [], "tags": []},
         {"endpointName": "put", "httpMethod": "PUT", "httpPath": "/b/{bucket}/o/{type:[a-z]+}/{rest:.+}", "args": [{"argName": "bucket", "type": prim("RID"), "paramType": {"type": "path", "path": {}}, "markers": [], "tags": []}, {"argName": "type", "type": prim("STRING"), "paramType": {"type": "path", "path": {}}, "markers": [], "tags": []}, {"argName": "rest", "type": prim("STRING"), "paramType": {"type": "path", "path": {}}, "markers": [], "tags": []}, {"argName": "body", "type": prim("BINARY"), "paramType": {"type": "body", "body": {}}, "markers": [], "tags": []}], "markers": [], "tags": []}
     ]})], vec![])));
+    // doubles "at every legal position" includes below a set item: as the values of a map, inside an optional, and
+    // below lists of those (the item type of a set is any type)
+    {
+        let set = |t: Value| json!({"type": "set", "set": {"itemType": t}});
+        let d = || prim("DOUBLE");
+        let s = || prim("STRING");
+        let fields = vec![("f0", set(map(s(), d()))), ("f1", set(opt(d()))), ("f2", set(list(map(s(), d())))), ("f3", set(map(s(), opt(d())))), ("f4", map(s(), set(map(s(), d())))),
+            ("f5", list(set(map(s(), list(d()))))), ("f6", set(map(d(), d()))), ("f7", opt(set(map(s(), d())))), ("f8", set(map(s(), map(s(), d()))))];
+        v.push(("shape:doubles-below-set-items".to_string(), ir(vec![
+            obj("SetHolder", fields.clone()),
+            uni("SetUnion", fields.clone()),
+            json!({"type": "alias", "alias": {"typeName": tn("SetOfMaps"), "alias": set(map(s(), d()))}}),
+        ], vec![], vec![])));
+    }
     // "types spread over nested packages": a type and a sub-package of its package whose module names coincide (the
     // type `Inner` lives in module `inner`, the package `….inner` is module `inner` too), and two types of one
     // package whose names differ only in how they are cased
@@ -76,6 +90,42 @@ fn shapes() -> Vec<(String, Value)> {
         obj("Inner", vec![("leaf", opt(json!({"type": "reference", "reference": {"name": "Leaf", "package": "com.palantir.shapes.inner"}})))]),
         json!({"type": "object", "object": {"typeName": {"name": "Leaf", "package": "com.palantir.shapes.inner"}, "fields": [{"fieldName": "x", "type": prim("INTEGER")}]}}),
     ], vec![], vec![])));
+    // type, error and service names that are also names generated code or its derives use (one document per name:
+    // an object, a union, an enum, an alias, an error and a service of that name, each in a package of its own)
+    for n in ["Result", "Ok", "Err", "Some", "None", "Default", "Clone", "From", "Into", "Iterator", "IntoIterator", "String", "Vec", "Option", "Box", "Send", "Sync", "Copy", "Eq", "Ord", "Hash", "Debug", "Drop", "ToString", "AsRef", "Unknown", "Error", "Builder", "Any", "Bytes", "Uuid", "Variant", "Display", "Serialize", "Deserialize", "Stage", "Endpoint", "Service", "Client"] {
+        let pk = |r: &str| format!("com.palantir.shapes.named.{}", r);
+        let t = |r: &str, name: &str| json!({"name": name, "package": pk(r)});
+        let rf = |r: &str, name: &str| json!({"type": "reference", "reference": t(r, name)});
+        v.push((format!("type-named:{}", n), ir(vec![
+            json!({"type": "object", "object": {"typeName": t("o", n), "fields": [{"fieldName": "s", "type": prim("STRING")}, {"fieldName": "o", "type": opt(prim("INTEGER"))}, {"fieldName": "l", "type": list(prim("DOUBLE"))}, {"fieldName": "me", "type": opt(rf("o", n))}, {"fieldName": "other", "type": rf("o", "Other")}, {"fieldName": "b", "type": prim("BINARY")}]}}),
+            json!({"type": "object", "object": {"typeName": t("o", "Other"), "fields": [{"fieldName": "x", "type": prim("INTEGER")}]}}),
+            json!({"type": "union", "union": {"typeName": t("u", n), "union": [{"fieldName": "a", "type": prim("STRING")}, {"fieldName": "b", "type": rf("o", "Other")}, {"fieldName": "me", "type": list(rf("u", n))}]}}),
+            json!({"type": "enum", "enum": {"typeName": t("e", n), "values": [{"value": "A"}, {"value": "B"}]}}),
+            json!({"type": "alias", "alias": {"typeName": t("a", n), "alias": opt(prim("STRING"))}}),
+        ], vec![json!({"serviceName": t("s", n), "endpoints": [
+            {"endpointName": "get", "httpMethod": "POST", "httpPath": "/get/{id}", "args": [{"argName": "id", "type": prim("STRING"), "paramType": {"type": "path", "path": {}}, "markers": [], "tags": []}, {"argName": "q", "type": opt(prim("INTEGER")), "paramType": {"type": "query", "query": {"paramId": "q"}}, "markers": [], "tags": []}, {"argName": "body", "type": rf("o", "Other"), "paramType": {"type": "body", "body": {}}, "markers": [], "tags": []}], "returns": list(prim("STRING")), "markers": [], "tags": []}
+        ]})], vec![json!({"errorName": t("x", n), "namespace": "Shapes", "code": "INVALID_ARGUMENT", "safeArgs": [{"fieldName": "a", "type": prim("STRING")}], "unsafeArgs": [{"fieldName": "o", "type": rf("o", "Other")}]})])));
+    }
+    // a binary request body declared safe to log
+    v.push(("shape:safe-binary-body".to_string(), ir(vec![], vec![json!({"serviceName": tn("UploadService"), "endpoints": [
+        {"endpointName": "put", "httpMethod": "POST", "httpPath": "/put", "args": [{"argName": "body", "type": prim("BINARY"), "paramType": {"type": "body", "body": {}}, "safety": "SAFE", "markers": [], "tags": []}], "markers": [], "tags": []}
+    ]})], vec![])));
+    // an alias whose target mentions a type of its own package, used from another package: as an optional body, a
+    // header and a query argument of a service, and as the target of a second alias
+    {
+        let t = |p: &str, name: &str| json!({"name": name, "package": format!("com.palantir.shapes.{}", p)});
+        let rf = |p: &str, name: &str| json!({"type": "reference", "reference": t(p, name)});
+        v.push(("shape:alias-used-from-another-package".to_string(), ir(vec![
+            json!({"type": "enum", "enum": {"typeName": t("model", "Color"), "values": [{"value": "RED"}]}}),
+            json!({"type": "object", "object": {"typeName": t("model", "Filter"), "fields": [{"fieldName": "c", "type": opt(rf("model", "Color"))}]}}),
+            json!({"type": "alias", "alias": {"typeName": t("model", "MaybeFilter"), "alias": opt(rf("model", "Filter"))}}),
+            json!({"type": "alias", "alias": {"typeName": t("model", "MaybeColor"), "alias": opt(rf("model", "Color"))}}),
+            json!({"type": "alias", "alias": {"typeName": t("api.v2", "Wrapped"), "alias": rf("model", "MaybeFilter")}}),
+            json!({"type": "object", "object": {"typeName": t("api", "Request"), "fields": [{"fieldName": "f", "type": rf("model", "MaybeFilter")}, {"fieldName": "w", "type": rf("api.v2", "Wrapped")}]}}),
+        ], vec![json!({"serviceName": t("api.svc", "FilterService"), "endpoints": [
+            {"endpointName": "find", "httpMethod": "POST", "httpPath": "/find", "args": [{"argName": "body", "type": rf("model", "MaybeFilter"), "paramType": {"type": "body", "body": {}}, "markers": [], "tags": []}, {"argName": "color", "type": rf("model", "MaybeColor"), "paramType": {"type": "query", "query": {"paramId": "color"}}, "markers": [], "tags": []}, {"argName": "hc", "type": rf("model", "MaybeColor"), "paramType": {"type": "header", "header": {"paramId": "X-Color"}}, "markers": [], "tags": []}], "returns": rf("api.v2", "Wrapped"), "markers": [], "tags": []}
+        ]})], vec![])));
+    }
     // one object per keyword-like field name (so that a failure names the keyword)
     for kw in ["as", "async", "await", "break", "const", "continue", "crate", "dyn", "else", "enum", "extern", "false", "fn", "for", "if", "impl", "in", "let", "loop", "match", "mod", "move", "mut", "pub", "ref", "return", "self", "static", "struct", "super", "trait", "true", "type", "unsafe", "use", "where", "while", "abstract", "become", "box", "do", "final", "macro", "override", "priv", "try", "typeof", "unsized", "virtual", "yield", "gen", "union", "builder", "build", "new", "default", "clone", "from", "into"] {
         v.push((format!("field-named:{}", kw), ir(vec![obj("KwObject", vec![(kw, prim("STRING")), ("other", opt(prim("INTEGER")))]), obj("KwOptObject", vec![("first", prim("BOOLEAN")), (kw, opt(prim("STRING")))]), obj("KwListObject", vec![(kw, list(prim("DOUBLE")))]), uni("KwUnion", vec![(kw, prim("DOUBLE"))])], vec![], vec![])));
@@ -105,7 +155,7 @@ fn field_idents(tree: &BTreeMap<String, String>) -> Result<Vec<(String, Vec<Stri
 
 /// which references the generated objects and unions hold behind a `Box`, read back from the emitted types, against
 /// Model/Boxing.lean on the same definitions
-fn boxing_case(cs: &mut Cases, class: &str, name: &str, ir: &Value, tree: &BTreeMap<String, String>) {
+fn boxing_case(cs: &mut Cases, class: &str, name: &str, ir: &Value, cfg: &GenCfg, tree: &BTreeMap<String, String>) {
     let types = match ir["types"].as_array() {
         Some(t) if !t.is_empty() => t,
         _ => return,
@@ -202,12 +252,54 @@ fn boxing_case(cs: &mut Cases, class: &str, name: &str, ir: &Value, tree: &BTree
                     }
                 }).collect();
                 real.push(format!("{}:{}", if k == "object" { "o" } else { "u" }, flags.join(",")));
+                // the path written for each such reference (inside `Option` / `Box`), against Model/TypePath.lean
+                fn innermost(ty: &syn::Type) -> &syn::Type {
+                    if let syn::Type::Path(p) = ty {
+                        if let Some(seg) = p.path.segments.last() {
+                            if seg.ident == "Option" || seg.ident == "Box" {
+                                if let syn::PathArguments::AngleBracketed(a) = &seg.arguments {
+                                    if let Some(syn::GenericArgument::Type(inner)) = a.args.first() {
+                                        return innermost(inner);
+                                    }
+                                }
+                            }
+                        }
+                    }
+                    ty
+                }
+                fn target(t: &Value) -> Option<&Value> {
+                    match t["type"].as_str().unwrap_or("") {
+                        "optional" => target(&t["optional"]["itemType"]),
+                        "reference" => Some(&t["reference"]),
+                        _ => None,
+                    }
+                }
+                let this_pkg = t[k]["typeName"]["package"].as_str().unwrap_or("");
+                for (i, f) in fields.iter().enumerate() {
+                    if let (Some(tn), Some(Some(ty))) = (target(&f["type"]), tys.get(i)) {
+                        let other_pkg = tn["package"].as_str().unwrap_or("");
+                        let rust = tn["name"].as_str().unwrap_or("").to_upper_camel_case();
+                        if rust == "Option" || rust == "Box" || rust == "Self" || this_pkg.is_empty() || other_pkg.is_empty() {
+                            continue;
+                        }
+                        let inner = innermost(ty);
+                        let got = quote::quote!(#inner).to_string().replace(' ', "");
+                        cs.push("type-path", format!("typepath {} {} {} {}", cfg.strip_prefix.as_deref().map(esc_pkg).unwrap_or_else(|| "-".to_string()), esc_pkg(this_pkg), esc_pkg(other_pkg), rust), got, this_pkg != other_pkg,
+                            format!("the path written in {} ({}) for a reference to {} ({}), stripPrefix {:?}, in {}", rust_name, this_pkg, rust, other_pkg, cfg.strip_prefix, name));
+                    }
+                }
             }
             _ => return,
         }
     }
     defs.push(')');
     cs.push(class, format!("boxing {}", defs), real.join(";"), any_ref, format!("which references the types generated for {} hold behind a Box", name));
+}
+
+/// a package as the generator names its modules: each component followed by `_` when it is a Rust keyword
+fn esc_pkg(p: &str) -> String {
+    const KW: [&str; 51] = ["as", "break", "const", "continue", "crate", "else", "enum", "extern", "false", "fn", "for", "if", "impl", "in", "let", "loop", "match", "mod", "move", "mut", "pub", "ref", "return", "self", "static", "struct", "super", "trait", "true", "type", "unsafe", "use", "where", "while", "await", "abstract", "async", "become", "box", "do", "final", "macro", "override", "priv", "try", "typeof", "unsized", "virtual", "yield", "union", "dyn"];
+    p.split('.').map(|c| if KW.contains(&c) { format!("{}_", c) } else { c.to_string() }).collect::<Vec<_>>().join(".")
 }
 
 fn interesting(ir: &Value) -> bool {
@@ -224,7 +316,7 @@ pub fn cases(seed: u64, tier: Tier) -> Cases {
     }
     let n = if tier == Tier::Quick { 30 } else { 400 };
     for i in 0..n {
-        let ir = irrand::random_ir(&mut rng, &irrand::Opts::default());
+        let ir = irrand::random_ir(&mut rng, &irrand::Opts { rich_set_items: true, ..irrand::Opts::default() });
         let strip = match rng.below(3) {
             0 => None,
             1 => Some("com.palantir.verif".to_string()),
@@ -240,6 +332,8 @@ pub fn cases(seed: u64, tier: Tier) -> Cases {
         (None, "com.a", "com.a"), (None, "com.a.b", "com.a"), (None, "com.a", "com.a.b.c"), (None, "a", "b"), (None, "com.a.b.c.d", "com.a.x.y"),
         (Some("com.a"), "com.a.x", "com.a.y.z"), (Some("com.a"), "com.a", "com.a.y"), (Some("com.a"), "org.b", "com.a.y"), (Some("com.a"), "com.a.y", "org.b.c"),
         (Some("com.a.x"), "com.a.x", "com.a"), (Some("com"), "com.p.q", "com.p.q.r.s"), (Some("com.a"), "com.ab.c", "com.a.c"),
+        // package components that are Rust keywords, also inside the prefix
+        (Some("com.acme.box"), "com.acme.box.api", "com.acme.box.model"), (Some("com.type"), "com.type.x", "com.type.async.z"), (None, "com.loop.a", "com.loop.b"), (Some("com.acme.box.api"), "com.acme.box.api", "com.acme.box"),
     ] {
         let ir = json!({"version": 1, "errors": [], "services": [], "extensions": {}, "types": [
             {"type": "enum", "enum": {"typeName": {"name": "Kind", "package": other}, "values": [{"value": "A"}, {"value": "B"}]}},
@@ -247,7 +341,7 @@ pub fn cases(seed: u64, tier: Tier) -> Cases {
                 {"fieldName": "kind", "type": {"type": "reference", "reference": {"name": "Kind", "package": other}}},
                 {"fieldName": "kinds", "type": {"type": "map", "map": {"keyType": {"type": "reference", "reference": {"name": "Kind", "package": other}}, "valueType": {"type": "optional", "optional": {"itemType": {"type": "reference", "reference": {"name": "Holder", "package": this}}}}}}}]}}]});
         let cfg = GenCfg { exhaustive: false, serialize_empty_collections: false, strip_prefix: strip.map(|s: &str| s.to_string()), build_crate: None };
-        let op = format!("typepath {} {} {} Kind", strip.unwrap_or("-"), this, other);
+        let op = format!("typepath {} {} {} Kind", strip.map(esc_pkg).unwrap_or_else(|| "-".to_string()), esc_pkg(this), esc_pkg(other));
         let note = format!("the type of field `kind: Kind` ({}) in object Holder ({}), stripPrefix {:?}", other, this, strip);
         let real = match irgen::generate(&ir, &cfg) {
             Err(e) => format!("generation failed: {}", e.lines().next().unwrap_or("")),
@@ -275,6 +369,19 @@ pub fn cases(seed: u64, tier: Tier) -> Cases {
             }
         };
         cs.push("type-path", op, real, this != other, note);
+        // the statement: each declared type is exposed under its package's module (without the prefix, when the
+        // package begins with it)
+        if let Ok(tree) = irgen::generate(&ir, &cfg) {
+            for (pkg, file) in [(this, "holder.rs"), (other, "kind.rs")] {
+                let comps: Vec<String> = esc_pkg(pkg).split('.').map(|s| s.to_string()).collect();
+                let pre: Vec<String> = strip.map(|p| esc_pkg(p).split('.').map(|s| s.to_string()).collect()).unwrap_or_default();
+                let rest: Vec<String> = if comps.len() >= pre.len() && comps[..pre.len()] == pre[..] { comps[pre.len()..].to_vec() } else { comps.clone() };
+                let want = rest.iter().cloned().chain(std::iter::once(file.to_string())).collect::<Vec<_>>().join("/");
+                if !tree.contains_key(&want) {
+                    cs.fail_last("type-path:module", format!("the type of package {} (stripPrefix {:?}) is not written to {}; files: {:?}", pkg, strip, want, tree.keys().collect::<Vec<_>>()));
+                }
+            }
+        }
         docs.push((format!("type-path:{}->{} strip {:?}", this, other, strip), ir, cfg));
     }
 
@@ -282,14 +389,14 @@ pub fn cases(seed: u64, tier: Tier) -> Cases {
     let mut compiled: Vec<(usize, BTreeMap<String, String>)> = vec![];
     let mut case_of_doc: Vec<usize> = vec![];
     for (k, (name, ir, cfg)) in docs.iter().enumerate() {
-        let class = if name.starts_with("seeded") { "seeded" } else if name.starts_with("field-named") { "keyword-field" } else if name.starts_with("type-path") { "type-path" } else { "changelog-shape" };
+        let class = if name.starts_with("seeded") { "seeded" } else if name.starts_with("field-named") { "keyword-field" } else if name.starts_with("type-path") { "type-path" } else if name.starts_with("type-named") { "type-named" } else { "changelog-shape" };
         let ir_txt = serde_json::to_string(ir).unwrap();
         match irgen::generate(ir, cfg) {
             Err(e) => {
                 cs.push(class, "noop".into(), "noop".into(), true, format!("{} {:?}", name, cfg));
                 case_of_doc.push(cs.cases.len() - 1);
                 let first = e.lines().next().unwrap_or("").to_string();
-                let key = if name.starts_with("field-named:") { format!("generation-failed:{}", name) } else { format!("generation-failed:{}", if first.contains("keyword") { "keyword" } else { "other" }) };
+                let key = if name.starts_with("field-named:") || name.starts_with("type-named:") || name.starts_with("shape:") { format!("generation-failed:{}", name) } else { format!("generation-failed:{}", if first.contains("keyword") { "keyword" } else { "other" }) };
                 cs.fail_last(&key, format!("generation failed for {} under {:?}: {} — IR {}", name, cfg, e.chars().take(300).collect::<String>(), ir_txt.chars().take(1500).collect::<String>()));
             }
             Ok(tree) => {
@@ -320,7 +427,10 @@ pub fn cases(seed: u64, tier: Tier) -> Cases {
                         }
                     }
                 }
-                boxing_case(&mut cs, class, name, ir, &tree);
+                // (the documents of `type-named:` give one name to several types: the read-back goes by name)
+                if !name.starts_with("type-named:") {
+                    boxing_case(&mut cs, class, name, ir, cfg, &tree);
+                }
                 case_of_doc.push(cs.cases.len() - 1);
                 compiled.push((k, tree));
             }
@@ -375,9 +485,9 @@ pub fn cases(seed: u64, tier: Tier) -> Cases {
             }
             for (d, errs) in by_doc {
                 let (name, ir, cfg) = &docs[d];
-                let class = if name.starts_with("seeded") { "seeded" } else if name.starts_with("field-named") { "keyword-field" } else if name.starts_with("type-path") { "type-path" } else { "changelog-shape" };
+                let class = if name.starts_with("seeded") { "seeded" } else if name.starts_with("field-named") { "keyword-field" } else if name.starts_with("type-path") { "type-path" } else if name.starts_with("type-named") { "type-named" } else { "changelog-shape" };
                 cs.push(class, "noop".into(), "noop".into(), true, format!("rustc on the output for {} {:?}", name, cfg));
-                let key = if name.starts_with("field-named:") { format!("does-not-compile:{}", name) } else { format!("does-not-compile:{}", errs[0].split(' ').next().unwrap_or("")) };
+                let key = if name.starts_with("field-named:") || name.starts_with("type-named:") || name.starts_with("shape:") { format!("does-not-compile:{}", name) } else { format!("does-not-compile:{}", errs[0].split(' ').next().unwrap_or("")) };
                 cs.fail_last(&key, format!("the code generated for {} under {:?} does not compile: {} — IR {}", name, cfg, errs.iter().take(3).cloned().collect::<Vec<_>>().join(" | "), serde_json::to_string(ir).unwrap().chars().take(1500).collect::<String>()));
             }
         }
@@ -406,7 +516,7 @@ fn crate_mode(cs: &mut Cases, rng: &mut Rng, tier: Tier) {
     }
     let n = if tier == Tier::Quick { 3 } else { 25 };
     for i in 0..n {
-        let ir = irrand::random_ir(rng, &irrand::Opts::default());
+        let ir = irrand::random_ir(rng, &irrand::Opts { rich_set_items: true, ..irrand::Opts::default() });
         docs.push((format!("crate:seeded#{}", i), ir, GenCfg { exhaustive: rng.chance(1, 2), serialize_empty_collections: rng.chance(1, 2), strip_prefix: None, build_crate: Some((format!("c03-crate-s{}", i), "0.1.0".into())) }));
     }
     let root = PathBuf::from("/verif/work/c03-crates");
